@@ -4,7 +4,18 @@ preserved, illegal character at a token boundary => rejection).  Tie: (1) corres
 parser.ParseString with the extracted model on the text stream, comparing the PROJECTED observable
 accept/reject + list of (declaration kind, names); (2) the stream required by the quantifier: a
 character outside the alphabet inserted at EVERY token boundary of every accepted seed program must
-make the implementation reject."""
+make the implementation reject.
+Self-test (mutations tried in the worktree; /repo untouched):
+  T2  parser.y.go tables (scratch copy via VERIF_REPO): gritsR2[23] := 1 (`expression : CLOSE name`
+      pops one symbol) -> proofs/LRSoundInst.v (sound_ok: backward paths no longer spell one
+      right-hand side) fails, 95/110 obligations; correspondence: 5 shrunk inputs such as `close self`
+      on which the (unmutated) probe and the model built from the mutated tables disagree.
+  S2  Scan.v: a block comment ends at the first '/' after ANY '*' (old F16) -> proofs/ScanProofs.v fails
+      (and with it ScanCover.v: skip_comment_spec is stated over closes_at_end).
+  S3  Expand.v: drop the has_illegal test -> ParseSound.v (accept_consumes_all), IllegalReject.v fail.
+  S4  Expand.v: `assuming` names dropped by expand1 -> ExpandProofs.v (expand1_decls) fails.
+  S5  Expand.v: exec processes not renumbered -> ExpandProofs.v (expand_exec_decls) fails.
+"""
 import json
 import os
 import re
